@@ -284,6 +284,15 @@ def noise_helpers(ctx, mech_mod, rng):
                 bad.append("laplace_noise(%r, %r) called the sampler with %r" % (scale, size, cap.calls[-1]))
             elif not np.array_equal(np.asarray(out), np.asarray(cap.last)):
                 bad.append("laplace_noise(%r, %r) returns %s, the sampler drew %s" % (scale, size, np.asarray(out).tolist(), np.asarray(cap.last).tolist()))
+            # the adjacency notion in force is the object's CURRENT attribute (subclasses set it after the base constructor)
+            M.bounded = not bounded
+            want_sw = (2.0 if not bounded else 1.0) * s / eps
+            g_sw = M.gaussian_noise_scale(s, eps, delta)
+            if not math.isclose(M.laplace_noise_scale(s, eps), want_sw, rel_tol=1e-12):
+                bad.append("after setting bounded=%s on the object, laplace_noise_scale(%r, %r) = %r, expected %r" % (not bounded, s, eps, M.laplace_noise_scale(s, eps), want_sw))
+            if not math.isclose(g_sw, (2.0 if not bounded else 1.0) * unb, rel_tol=1e-12):
+                bad.append("after setting bounded=%s on the object, gaussian_noise_scale = %r, unbounded value %r" % (not bounded, g_sw, unb))
+            M.bounded = bounded
             if bad:
                 ctx.violation("noise helpers: " + "; ".join(bad), {"bounded": bounded, "s": s, "eps": eps, "delta": delta}, {"kind": "noise"})
 
